@@ -19,6 +19,8 @@ pub enum Case {
     Pair { a: String, b: String, la: [String; 2], lb: String, full: bool, tag: String },
     /// order / non-degeneracy identities on the library's e(P1, P2)
     Identities,
+    /// bilinearity evaluated inside the library: e([b]P1, [a]P2) = e(P1, P2)^(ab mod N) with the library's own GT exponentiation
+    Bilinear { a: String, b: String },
 }
 
 fn g0() -> &'static F12 {
@@ -39,13 +41,35 @@ pub fn eval(ctx: &Ctx, case: &Case) {
             let (lp, lq) = (lib_g1(&pp, &lb), lib_g2(&qq, &la));
             ctx.call();
             let got = guard(|| hook::pairing(&lq, &lp).to_bytes_be());
-            let want = if *full { sm9::pairing(&pp, &qq) } else { sm9::f12_pow(g0(), &((&a * &b) % &pr.n)) };
+            // a or b = 0 mod N: one argument is the identity and the pairing value is 1
+            let want = if pp.is_none() || qq.is_none() { sm9::f12_one() } else if *full { sm9::pairing(&pp, &qq) } else { sm9::f12_pow(g0(), &((&a * &b) % &pr.n)) };
             ctx.trace();
             let rep = format!("{}/{}", if lb.is_one() { "P:Z=1" } else { "P:Z!=1" }, if la == (BigUint::one(), BigUint::zero()) { "Q:Z=1" } else { "Q:Z!=1" });
             match got {
                 Guard::Done(bytes) if bytes == sm9::f12_bytes(&want) => ctx.outcome(&format!("ok/{}/{}", if *full { "full-reference" } else { "bilinear-reference" }, rep)),
                 Guard::Done(bytes) => ctx.violation(site, &format!("wrong-pairing-value/{}/{}", rep, tag), format!("a={} b={} got={}.. want={}..", hexbig(&a), hexbig(&b), hex::encode(&bytes[..32.min(bytes.len())]), f12_hex(&want)), cj()),
                 Guard::Panic(p) => ctx.violation(site, &format!("panic/{}/{}", panic_site(&p), rep), p, cj()),
+            }
+        }
+        Case::Bilinear { a, b } => {
+            let (a, b) = (hb(a), hb(b));
+            let (pp, qq) = (sm9::g1_mul(&b, &pr.p1), sm9::g2_mul(&a, &pr.p2));
+            if pp.is_none() || qq.is_none() {
+                return;
+            }
+            let e = (&a * &b) % &pr.n;
+            ctx.calls(3);
+            ctx.trace();
+            let r = guard(|| {
+                let lhs = hook::pairing(&lib_g2_affine(&qq), &lib_g1_affine(&pp)).to_bytes_be();
+                let g = hook::pairing(&lib_g2_affine(&pr.p2), &lib_g1_affine(&pr.p1));
+                let rhs = hook::fp12_pow(&g, &refmodels::util::to_limbs(&e)).to_bytes_be();
+                lhs == rhs
+            });
+            match r {
+                Guard::Done(true) => ctx.outcome("ok/bilinear-inside-library"),
+                Guard::Done(false) => ctx.violation(site, "not-bilinear-with-library-exponentiation", format!("a={} b={} ab mod N={}", hexbig(&a), hexbig(&b), hexbig(&e)), cj()),
+                Guard::Panic(p) => ctx.violation(site, &format!("panic/{}/bilinear", panic_site(&p)), p, cj()),
             }
         }
         Case::Identities => {
@@ -88,7 +112,7 @@ pub fn run(ctx: &Arc<Ctx>) {
     let pr = sm9::params();
     let n = pr.n.clone();
     let _ = g0();
-    ctx.set_rule("P = [b]P1, Q = [a]P2 for a, b in {1,2,3,N-1,N-2,2^128,Annex ks,seeded}: full product a x b with both inputs affine, compared byte for byte (384 bytes) with e(P1,P2)^(ab) computed by the reference; the diagonal and a spread of pairs additionally against a full reference evaluation (generic Miller loop over 6t+2, two Frobenius steps, exponent (p^12-1)/N) on those very points; every pair again with Jacobian inputs Z != 1 (P, Q, both); e(P1,P2) != 1 and of order N; the GM/T 0044.5 value of e(P1,Ppub-s).");
+    ctx.set_rule("P = [b]P1, Q = [a]P2 for a, b in {1,2,3,N-1,N-2,2^128,Annex ks,seeded}: full product a x b with both inputs affine, compared byte for byte (384 bytes) with e(P1,P2)^(ab) computed by the reference; the diagonal and a spread of pairs additionally against a full reference evaluation (generic Miller loop over 6t+2, two Frobenius steps, exponent (p^12-1)/N) on those very points; every pair again with Jacobian inputs Z != 1 (P, Q, both); identity arguments (a or b = 0 mod N) give 1; bilinearity re-evaluated with the library's own GT exponentiation incl. exponents with all-zero 64-bit limbs; e(P1,P2) != 1 and of order N; the GM/T 0044.5 value of e(P1,Ppub-s).");
     let mut g = SplitMix::new(ctx.seed, "c12");
     let nseed = ctx.tier.pick(4usize, 26);
     let mut sc: Vec<(String, BigUint)> = vec![
@@ -122,10 +146,27 @@ pub fn run(ctx: &Arc<Ctx>) {
             cases.push(Case::Pair { a: hexbig(a), b: hexbig(b), la, lb, full: false, tag });
         }
     }
+    // identity arguments: a or b = 0 mod N
+    for (an, a) in [("0", BigUint::zero()), ("N", n.clone()), ("3", BigUint::from(3u32))] {
+        for (bn, b) in [("0", BigUint::zero()), ("N", n.clone()), ("5", BigUint::from(5u32))] {
+            if an == "3" && bn == "5" {
+                continue;
+            }
+            cases.push(Case::Pair { a: hexbig(&a), b: hexbig(&b), la: one2.clone(), lb: one1.clone(), full: false, tag: format!("identity/a={}/b={}", an, bn) });
+        }
+    }
+    // bilinearity with the library's own exponentiation, incl. exponents with all-zero 64-bit limbs
+    let zl: Vec<BigUint> = vec![BigUint::one() << 64usize, (BigUint::one() << 128usize) + 1u32, (BigUint::from(0x1234u32) << 192usize) + 15u32, BigUint::from(7u32), g.nonzero_below(&n)];
+    for a in &zl {
+        for b in [BigUint::one(), BigUint::from(2u32)] {
+            cases.push(Case::Bilinear { a: hexbig(a), b: hexbig(&b) });
+            cases.push(Case::Bilinear { a: hexbig(&b), b: hexbig(a) });
+        }
+    }
     ctx.note_bound(format!("{} scalars, {} pairings", sc.len(), cases.len()));
     ctx.sample(serde_json::to_value(&cases[1]).unwrap());
     ctx.sample(serde_json::to_value(&cases[cases.len() - 1]).unwrap());
     ctx.cov("full_reference_evaluations", json!(cases.iter().filter(|c| matches!(c, Case::Pair { full: true, .. })).count()));
     run_cases(ctx, &cases, 4, eval);
-    ctx.assume("the identity element is not paired: SM9 never pairs O and to_affine_point of O is outside every stated contract");
+
 }
